@@ -93,3 +93,134 @@ Definition check_bool (cs : list bool_case) : list (Z * cres * rres) :=
     let mr := Ok (RBool (beval o a b)) in
     if cres_matches mc c1 && cres_matches mc c2 && forallb (rres_eqb mr) runs
     then [] else [(k, mc, mr)]) (indexed 0 cs).
+
+(* ---- leg cast: Into / TryInto / NonZero / generic downcast ---- *)
+Definition cast_case := (ckind * ity * ity * Z * icres * icres * list rres)%type.
+Definition check_cast (cs : list cast_case) : list (Z * cres * rres) :=
+  flat_map (fun '(k, (kd, From, To, x, c1, c2, runs)) =>
+    let mc := const_cast kd From To x in
+    let mr := rt_cast kd From To (enc From x) in
+    if cres_matches mc c1 && cres_matches mc c2 && forallb (rres_eqb mr) runs
+    then [] else [(k, mc, mr)]) (indexed 0 cs).
+
+(* ---- leg lf: libfunc-level functions with literal (known to the folder) and run-time operands ---- *)
+Inductive lfk :=
+| LUAdd (T : ity) | LUSub (T : ity)   (* match uN_overflowing_add/sub(a, b) { Ok(v) => (0, v), Err(v) => (1, v) } *)
+| LDiff (S0 : ity)                     (* match iN_diff(a, b) { Ok(v) => (0, v), Err(v) => (1, v) } *)
+| LWideMul (T : ity)                   (* T_wide_mul(a, b) *)
+| LFeltDiv                             (* felt252_div(a, b.try_into().unwrap()) *)
+| LFAdd | LFSub | LFMul                (* felt252 a + b, a - b, a * b *)
+| LEq (T : ity)                        (* a == b *)
+| LUDiv (T : ity) | LURem (T : ity).   (* unsigned a / b, a % b *)
+
+Definition unsigned_of (S0 : ity) : ity :=
+  match S0 with I8 => U8 | I16 => U16 | I32 => U32 | I64 => U64 | I128 => U128 | T => T end.
+
+Definition pair_of (r : nat * Z) : rres := Ok (RPair (Z.of_nat (fst r)) (snd r)).
+
+(* run-time meaning; x y are literal values (felt252 operands are reduced here) *)
+Definition lf_rt (f : lfk) (x y : Z) : rres :=
+  match f with
+  | LUAdd T => pair_of (rt_uoverflowing T (x + y))
+  | LUSub T => pair_of (rt_uoverflowing T (x - y))
+  | LDiff S0 => pair_of (rt_diff S0 x y)
+  | LWideMul _ => Ok (RInt (x * y))
+  | LFeltDiv => if y mod P =? 0 then Panic [str "Option::unwrap failed."]
+                else Ok (RInt 0)    (* placeholder: the quotient is specified by lf_rt_ok *)
+  | LFAdd => Ok (RInt ((x + y) mod P))
+  | LFSub => Ok (RInt ((x - y) mod P))
+  | LFMul => Ok (RInt ((x * y) mod P))
+  | LEq T => Ok (RBool (enc T x =? enc T y))
+  | LUDiv T => eval ODiv T x y
+  | LURem T => eval ORem T x y
+  end.
+
+(* what the fold model predicts for the function's result when it rewrites (None: no rewrite).
+   kx, ky: what the folder knows (literal operand = Some, parameter = None). *)
+Definition denote_mout (m : mout) (x y : Z) : option (nat * Z) :=
+  match m with
+  | MArm a (Some v) => Some (a, v)
+  | MArmVar a 0 => Some (a, x)
+  | MArmVar a _ => Some (a, y)
+  | _ => None
+  end.
+Definition denote_fout (o : fout) (x y : Z) : option Z :=
+  match o with FConst v => Some v | FVar 0 => Some x | FVar _ => Some y | FConst2 _ _ => None end.
+
+Definition lf_fold (f : lfk) (kx ky : known) (x y : Z) : option rres :=
+  let felt (lc : lf_call) :=
+    match fold_call lc [kx; ky] with
+    | Some o => match denote_fout o (x mod P) (y mod P) with
+                | Some v => Some (Ok (RInt (v mod P))) | None => None end
+    | None => None
+    end in
+  let ovf (lm : lf_match) :=
+    match fold_match lm [kx; ky] with
+    | Some m => match denote_mout m x y with Some r => Some (pair_of r) | None => None end
+    | None => None
+    end in
+  match f with
+  | LUAdd T => ovf (UAdd T)
+  | LUSub T => ovf (USub T)
+  | LDiff S0 => ovf (Diff (unsigned_of S0))
+  | LWideMul _ =>
+      match fold_call WideMul [kx; ky] with
+      | Some (FConst v) => Some (Ok (RInt v)) | _ => None end
+  | LFeltDiv =>
+      (* the NonZero conversion of a known divisor is folded first (IsZero); unknown: no claim *)
+      match ky with
+      | Some r => if r mod P =? 0 then None else felt FeltDiv
+      | None => None
+      end
+  | LFAdd => felt FeltAdd
+  | LFSub => felt FeltSub
+  | LFMul => felt FeltMul
+  | LEq T =>
+      match T with
+      | Felt => None                       (* felt252 == is `a - b` matched against 0 *)
+      | U256 => None                       (* field-wise on the struct *)
+      | _ =>
+        match fold_match EqInt [kx; ky] with
+        | Some (MArm a None) => Some (Ok (RBool (Nat.eqb a 1)))
+        | Some (MIsZeroOf 0) => Some (Ok (RBool (x =? 0)))
+        | Some (MIsZeroOf _) => Some (Ok (RBool (y =? 0)))
+        | _ => None
+        end
+      end
+  | LUDiv T =>
+      match ky with
+      | Some r =>
+          if r =? 0 then None
+          else match fold_call DivRem [kx; ky] with
+               | Some (FConst2 q _) => Some (Ok (RInt q)) | _ => None end
+      | None => None
+      end
+  | LURem T =>
+      match ky with
+      | Some r =>
+          if r =? 0 then None
+          else match fold_call DivRem [kx; ky] with
+               | Some (FConst2 _ r') => Some (Ok (RInt r')) | _ => None end
+      | None => None
+      end
+  end.
+
+(* does the observed result r satisfy the run-time meaning?  felt252_div is specified by its defining
+   equation q * y = x in the field (no inverse is computed) *)
+Definition lf_rt_ok (f : lfk) (x y : Z) (r : rres) : bool :=
+  match f, r with
+  | LFeltDiv, Ok (RInt q) =>
+      negb (y mod P =? 0) && (0 <=? q) && (q <? P) && ((q * (y mod P)) mod P =? x mod P)
+  | _, _ => rres_eqb (lf_rt f x y) r
+  end.
+
+(* (libfunc, x known?, y known?, x, y, runs = [fold on; fold off]) *)
+Definition lf_case := (lfk * bool * bool * Z * Z * list rres)%type.
+Definition check_lf (cs : list lf_case) : list (Z * rres * option rres) :=
+  flat_map (fun (kc : Z * lf_case) =>
+    let '(k, (f, bx, bY, x, y, runs)) := kc in
+    let mr := lf_rt f x y in
+    let mf := lf_fold f (if bx then Some x else None) (if bY then Some y else None) x y in
+    if forallb (lf_rt_ok f x y) runs
+       && match mf with Some r => forallb (rres_eqb r) runs | None => true end
+    then [] else [(k, mr, mf)]) (indexed 0 cs).
